@@ -778,4 +778,35 @@ theorem prefix_rep (o : Opts) (pol : Lexer.Policy) (units : Str) (hnf : noFrames
   obtain ⟨_, _, s', m', last', hr', ht'⟩ := run_sim o _ {} (Store.step {} .cifNew).1 {} none sops (rep_start o) h1 h2 h4 hcov hs
   exact ⟨sops, m', s', last', hs, hr', ht'⟩
 
+theorem Rep.forget {o : Opts} {m : HMap} {w : World} {s : Store.Store} {last : Option SOp} (h : Rep o m w s last) : Rep o m w s none :=
+  { h with open_ := by intro p hp; cases hp }
+
+/-- **a parse into a PRE-EXISTING target**, from any world that represents it (`Rep`: e.g. the world an earlier parse left; no save
+    frames): the trace has a translation w.r.t. the world's handle tables, the translated calls are in contract and return CIF_OK, and
+    the world then shows the CIF the parser model returns for that initial target -/
+theorem parse_store_sim_from (o : Opts) (pol : Lexer.Policy) (units : Str) (m : HMap) (w : World) (s : Store.Store) (last : Option SOp)
+    (hr : Rep o m w s last) (hokr : OkR o (absS s.db).tree)
+    (hnf : noFrames (storeTrace o pol (absS s.db).tree units) = true) :
+    ∃ sops, storeOpsFrom o m (storeTrace o pol (absS s.db).tree units) = some sops ∧
+      Store.inContractHist w sops = true ∧ (Store.run w sops).2.all (fun r => r.rc == some 0) = true ∧
+      Store.WOk (Store.run w sops).1 ∧
+      ∃ s', (Store.run w sops).1.cifs = [some s'] ∧ Store.abs s'.db = (parse o pol (absS s.db).tree units).cif := by
+  have hcov := coveredFrom_of _ none hnf (trace_shaped o pol (absS s.db).tree units)
+  have h1 := fun k => trace_prefix_okR o pol (absS s.db).tree units hokr k
+  have h2 := fun k op hk => trace_calls_docOk o pol (absS s.db).tree units hokr k op hk
+  have h3 := fun k op hk => trace_paths_resolve o pol (absS s.db).tree units k op hk
+  have h4 := storeTrace_wf o pol (absS s.db).tree units
+  obtain ⟨sops, hs⟩ := run_sim' o _ m w s none hr.forget h1 h2 h3 h4 hcov
+  obtain ⟨hin, hall, s', m', last', hr', ht'⟩ := run_sim o _ m w s none sops hr.forget h1 h2 h4 hcov hs
+  refine ⟨sops, hs, hin, hall, hr'.wok, s', hr'.cifs, ?_⟩
+  rw [← Store.absS_tree, ht', parse_replay]
+
+/-- the world a frame-free parse into a new CIF leaves represents its result: parses can be chained -/
+theorem parse_leaves_rep (o : Opts) (pol : Lexer.Policy) (units : Str) (hnf : noFrames (storeTrace o pol [] units) = true) :
+    ∃ sops m s last, storeOpsFrom o {} (storeTrace o pol [] units) = some sops ∧
+      Rep o m (Store.run (Store.step {} .cifNew).1 sops).1 s last ∧ (absS s.db).tree = (parse o pol [] units).cif := by
+  obtain ⟨sops, m, s, last, hs, hr, ht⟩ := prefix_rep o pol units hnf (storeTrace o pol [] units).length
+  rw [List.take_length] at hs ht
+  exact ⟨sops, m, s, last, hs, hr, by rw [ht, parse_replay]⟩
+
 end CifModel.ParserSim
